@@ -112,6 +112,27 @@ def run(prog, tier):
                                        ("EnsembleSampler", "process_proposal", "self.bounds.reflect", "self.pass_through"),
                                        ("HamiltonianChain", "run_leapfrog", "self.bounded_leapfrog", "self.standard_leapfrog")):
         obs.append(_slot_binding(prog, cname, slot, bounded, free))
+        # the hook is selected where the limits are stored, in the constructor: limits installed anywhere else (`chain.bounds = bounds`
+        # in a loader, a setter) leave the hook that was selected without them
+        ci_ = prog.cls(cname)
+        late = []
+        for c_ in [ci_] + list(prog.subclasses(cname)) + [x for x in prog.mro(ci_) if x is not ci_]:
+            for mname_, fn_ in c_.methods.items():
+                if mname_ == "__init__":
+                    continue
+                slot_set = any(isinstance(st_, ast.Assign) and isinstance(st_.targets[0], ast.Attribute) and st_.targets[0].attr == slot for st_ in ast.walk(fn_))
+                for st_ in ast.walk(fn_):
+                    tgs_ = st_.targets if isinstance(st_, ast.Assign) else [st_.target] if isinstance(st_, (ast.AugAssign, ast.AnnAssign)) else []
+                    for t_ in tgs_:
+                        for el_ in (t_.elts if isinstance(t_, ast.Tuple) else [t_]):
+                            if isinstance(el_, ast.Attribute) and el_.attr == "bounds" and not slot_set:
+                                late.append(f"{c_.name}.{mname_} line {st_.lineno}: `{U(st_)[:70]}`")
+                    if isinstance(st_, ast.Expr) and isinstance(st_.value, ast.Call) and U(st_.value.func) == "setattr" and len(st_.value.args) >= 2 \
+                            and U(st_.value.args[1]) in ("'bounds'", '"bounds"') and not slot_set:
+                        late.append(f"{c_.name}.{mname_} line {st_.lineno}: `{U(st_)[:70]}`")
+        obs.append(struct_ob("slot-binding", f"{ci_.module.name}.{cname}[limits-set-with-hook]", not late,
+                             f"`bounds` is stored outside the constructor without `{slot}` being re-selected: " + "; ".join(late[:2]),
+                             ci_.module.relpath, ci_.node.lineno, tier="F"))
 
     # ---------------------------------------------------------------- HMC posterior arguments
     obs.extend(_hmc_posterior_args(prog))
@@ -588,8 +609,15 @@ def _start_validated(prog):
           and any(isinstance(s, ast.If) and U(s.test) == f"not self.inside({v.args.args[1].arg})"
                   and any(isinstance(b, ast.Raise) for b in s.body) for s in v.body)
           and _inside_all_coordinates(Resolver(ins).return_terms(), ins.args.args[1].arg))
+    early = []
+    if ok:
+        # ... on every path: nothing returns before the test is made
+        gi_ = next(k_ for k_, s in enumerate(v.body) if isinstance(s, ast.If) and U(s.test) == f"not self.inside({v.args.args[1].arg})")
+        early = [x.lineno for s in v.body[:gi_] for x in ast.walk(s) if isinstance(x, ast.Return)]
+        ok = not early
     out.append(struct_ob("start-validated", qual(bc, v), ok,
-                         "validate_start_point must raise unless lower <= start <= upper for every coordinate", UTIL, v.lineno))
+                         "validate_start_point must raise unless lower <= start <= upper for every coordinate"
+                         + (f"; line {early[0]} returns before the test is made" if early else ""), UTIL, v.lineno))
     return out
 
 
